@@ -127,7 +127,7 @@ namespace fsw
             mode = p.workload == "c02" ? M_C02 : (p.workload == "c14" ? M_C14 : M_C01);
             prop = mode == M_C02 ? "C02" : (mode == M_C14 ? "C14" : "C01");
             auto par = [&](size_t i) { return i < p.params.size() ? p.params[i] : 0; };
-            alias_on = par(1) != 0 && mode == M_C01;     // aliasing arguments are C01's business only
+            alias_on = par(1) != 0 && mode != M_C14;     // aliasing arguments: C01 (results) and C02 (rejected calls change nothing)
             nul_on = par(2) != 0 && LAYOUT != L_STRLEN;
             stream_faults = par(4) != 0;
             tail = "initial/default,len==0";
@@ -228,7 +228,7 @@ namespace fsw
             if (sel == 0) return 0;
             if (sel == 1) return 1;
             if (sel == 2) return avail;
-            if (sel == 3) return npos;
+            if (sel == 3) return (raw & 3) == 0 ? npos - 1 - static_cast<size_t>((raw >> 2) % 70) : npos;    // npos and counts just below it
             if (sel == 4) return avail + 1;
             return static_cast<size_t>(raw % (avail + 2));
         }
@@ -473,7 +473,7 @@ namespace fsw
             size_t n = cnt_add(st.a, N);
             size_t ppos = pos_any(st.b, plen);
             size_t pcnt = cnt_clamp(st.a >> 5, plen - std::min(ppos, plen));
-            Str arg = mkstr(st.b, n, v == 7);
+            Str arg = mkstr(st.b, n, v == 7 || v == 10 || v == 13);
             size_t apos = pos_any(st.b >> 7, arg.size());
             size_t acnt = cnt_clamp(st.a >> 9, arg.size() - std::min(apos, arg.size()));
             CT ch = mkch(st.b, true);
@@ -549,7 +549,7 @@ namespace fsw
             size_t n = cnt_add(st.a, N);
             size_t ppos = pos_any(st.b, plen);
             size_t pcnt = cnt_clamp(st.a >> 5, plen - std::min(ppos, plen));
-            Str arg = mkstr(st.b, n, v == 3);
+            Str arg = mkstr(st.b, n, v == 3 || v == 6 || v == 14);
             size_t apos = pos_any(st.b >> 7, arg.size());
             size_t acnt = cnt_clamp(st.a >> 9, arg.size() - std::min(apos, arg.size()));
             CT ch = mkch(st.b, true), y = mkch(st.b >> 8, false), z = mkch(st.b >> 16, false);
@@ -751,7 +751,7 @@ namespace fsw
             size_t plen = model[pi].size();
             size_t ppos = pos_any(st.b >> 9, plen);
             size_t pcnt = (mode == M_C02) ? cnt_clamp(st.b >> 13, plen - std::min(ppos, plen)) : std::min(cnt_clamp(st.b >> 13, plen - std::min(ppos, plen)), room);
-            Str arg = mkstr(st.b, n, v == 2);
+            Str arg = mkstr(st.b, n, v == 2 || v == 12 || v == 15);
             size_t apos = pos_any(st.b >> 7, arg.size());
             size_t acnt = cnt_clamp(st.a >> 9, arg.size() - std::min(apos, arg.size()));
             CT ch = mkch(st.c >> 3, LAYOUT != L_STRLEN), y = mkch(st.b >> 8, false), z = mkch(st.b >> 16, false);
@@ -830,7 +830,7 @@ namespace fsw
             size_t plen = model[pi].size();
             size_t ppos = pos_any(st.a, plen);
             size_t pcnt = (mode == M_C02) ? cnt_clamp(st.a >> 13, plen - std::min(ppos, plen)) : std::min(cnt_clamp(st.a >> 13, plen - std::min(ppos, plen)), room);
-            Str arg = mkstr(st.b, n, v == 7);
+            Str arg = mkstr(st.b, n, v == 7 || v == 10 || v == 13);
             size_t apos = pos_any(st.b >> 7, arg.size());
             size_t acnt = cnt_clamp(st.a >> 9, arg.size() - std::min(apos, arg.size()));
             CT ch = mkch(st.c >> 3, LAYOUT != L_STRLEN), y = mkch(st.b >> 8, false), z = mkch(st.b >> 16, false);
@@ -970,7 +970,7 @@ namespace fsw
             size_t plen = model[pi].size();
             size_t ppos = pos_any(st.b >> 9, plen);
             size_t pcnt = (mode == M_C02) ? cnt_clamp(st.b >> 13, plen - std::min(ppos, plen)) : std::min(cnt_clamp(st.b >> 13, plen - std::min(ppos, plen)), room);
-            Str arg = mkstr(st.b, n, v == 8 || v == 9);
+            Str arg = mkstr(st.b, n, v == 8 || v == 9 || v == 15 || v == 20);
             size_t apos = pos_any(st.b >> 7, arg.size());
             size_t acnt = cnt_clamp(st.c >> 9, arg.size() - std::min(apos, arg.size()));
             CT ch = mkch(st.c >> 3, LAYOUT != L_STRLEN), y = mkch(st.b >> 8, false), z = mkch(st.b >> 16, false);
@@ -1159,6 +1159,9 @@ namespace fsw
             last_threw = false;
             mo << model[s];
             xo << static_cast<const FS&>(slot[s].get());
+            if (xo.width() != mo.width()) viol("C01", "model", "ret", "operator<< left the stream's field width at " + std::to_string(xo.width()) + ", std::string leaves " + std::to_string(mo.width()));
+            // what follows in the same stream must come out as after a std::string
+            mo << 'x' << 7; xo << 'x' << 7;
             if (xb.refused) { fstate().fired = true; SIM_PROBE("stream_sink_refused"); }
             if (xb.written != mb.written)
                 viol("C01", "model", "ret", "operator<< wrote " + std::to_string(xb.written.size()) + " bytes, std::string writes " + std::to_string(mb.written.size()));
